@@ -3,6 +3,7 @@ CONSTANTS
   MaxReq = 3
   Pads = {0, 50000, 70000}
   NativeArmEmpty = FALSE
+  AllowLateRequest = FALSE
   EmitCases = FALSE
 SPECIFICATION Spec
 INVARIANTS TypeOK NoSilentDrop ModeMatches CommitDoneAligned GnarkAligned
